@@ -28,6 +28,7 @@ EXP_MUTANTS = {
     "exp-breakdown-reports-unconverged": "ExpHonest",
     "exp-exhaustion-reports-converged": "ExpHonest",
     "exp-wrapper-never-raises": "ExpPublic",
+    "exp-no-confirmation": "ExpHonest",          # the estimate of the code before the repair 6f8c88a
 }
 MIN_MUTANTS = {
     "min-keeps-worst-residual": "MinSound",
@@ -48,6 +49,8 @@ CONSTANTS
   Levels = 3
   TolLevel = 1
 """
+    if mut != "none":
+        invs = invs[:2]        # a mutant must be refuted by a REQUIREMENT invariant, not by the mechanism-level shape facts
     txt += "".join(f"INVARIANT {i}\n" for i in invs)
     if mut == "none":
         txt += "INVARIANT PathLog\n"
@@ -182,7 +185,8 @@ def run_exp(spec: dict) -> dict:
     return {
         "fn": "exp", "spec": spec, "events": events, "hook_missing": hook_missing, "exc": exc, "rec": rec, "nops": nops,
         "kind": kind, "outcome": outcome, "atom": atom, "normA": o["normA"], "normv": norm_v, "dim": n,
-        "path": (maxdim, 0, kind, 0, rec["iters"], rec["converged"], rec["breakdown"]) if rec else None,
+        # slot 3: operator applications beyond the iteration count (1 = a confirming application)
+        "path": (maxdim, 0, kind, nops - rec["iters"], rec["iters"], rec["converged"], rec["breakdown"]) if rec else None,
     }
 
 
@@ -243,7 +247,7 @@ def gen_exp_spec(rng: np.random.Generator, seed: int) -> dict:
 # --------------------------------------------------------------------- binding A: realise model paths (exp)
 def realise_exp_path(task: dict) -> dict:
     """Find an instance on which the REAL kernel takes the model control path `task['path']`."""
-    m, _R, kind, _r, iters = task["path"][:5]
+    m, _R, kind, extra, iters = task["path"][:5]
     api, seed = task["api"], task["seed"]
     tried: list[dict] = []
     hit = None
@@ -264,11 +268,28 @@ def realise_exp_path(task: dict) -> dict:
             if r["path"] and (r["kind"], r["rec"]["iters"]) == (kind, iters):
                 hit = r
                 break
+        elif kind == "exhausted" and extra == 1:
+            # false alarm of the cheap estimate at the LAST allowed iteration: weakly coupled chains
+            # m equal weak couplings c with c^(m+1)/(m+1)! just below tol, then a strongly detuned last site:
+            # the cheap estimate (|op(q_{m-1})| ~ c) passes at iteration m, the confirmed one (|op(q_m)| ~ 30) does not
+            tolx = 1e-9
+            for k, f in enumerate((0.3, 0.1, 0.6, 0.03, 0.9, 0.01)):
+                c = (f * tolx * math.factorial(m + 1)) ** (1.0 / (m + 1))
+                spc = dict(base, cls="chain", spectrum="chain", seed=seed * 1000 + attempt * 40 + k, herm_flag=(attempt % 2 == 0),
+                           dim=m + 2, vkind="basis", scale=1.0, tol=tolx, ntol=1e-13,
+                           couplings=[c] * m + [0.5], diag=[0.0] * m + [30.0, 0.0])
+                r = run_exp(spc)
+                if r["path"] and r["kind"] == kind and r["path"][3] == 1:
+                    hit = r
+                    break
+            tried.append(hit if hit is not None else r)
+            if hit is not None:
+                break
         elif kind == "exhausted":
             sp.update(dim=dimc * 4 if cls != "lindblad" else 36, vkind="random", scale=25.0 if cls != "lindblad" else 8.0, tol=1e-10, ntol=1e-10)
             r = run_exp(sp)
             tried.append(r)
-            if r["path"] and r["kind"] == kind:
+            if r["path"] and r["kind"] == kind and r["path"][3] == 0:
                 hit = r
                 break
         else:
@@ -536,6 +557,10 @@ def judge(ctx: Ctx, prefix: str, results: list[dict], name: str, strict: bool = 
             where += ":marginal" if r["atom"]["ratio"] <= 3.0 else ":gross"
         key = f"{prefix}:{clause[4:]}{where}" + (f":{r['exc']}" if r.get("exc") and "raise" in clause else "")
         nviol += 1
+        counts = ctx.coverage.setdefault("violations_by_key", {})
+        counts[key] = counts.get(key, 0) + 1
+        if counts[key] > 2:
+            continue        # counted above; Ctx keeps one replay per key, and every NEW key must still get printed
         extra = ""
         if r.get("atom") and r["atom"].get("ratio") is not None:
             extra = f"; error {r['atom']['err']:.3g} = {r['atom']['ratio']:.3g} x budget"
